@@ -150,7 +150,7 @@ where
     Ok(())
 }
 
-pub const OPS: [&str; 30] = [
+pub const OPS: [&str; 33] = [
     "glwe_keyswitch",
     "glwe_keyswitch_assign",
     "glwe_automorphism",
@@ -181,6 +181,9 @@ pub const OPS: [&str; 30] = [
     "ggsw_keyswitch",
     "glwe_normalize",
     "glwe_normalize_assign",
+    "glwe_from_lwe",
+    "lwe_from_glwe",
+    "lwe_keyswitch",
 ];
 
 fn raw(g: &GLWE<Vec<u8>>) -> Vec<i64> {
@@ -537,6 +540,80 @@ where
                 })
             }
         }
+        30..=32 => {
+            // LWE <-> GLWE conversions and the LWE key-switch (keys built with ample scratch)
+            use crate::c03::{arbitrary_lwe, lwe_secret};
+            use poulpy_core::layouts::GLWESecretPreparedFactory;
+            use poulpy_hal::api::ScratchOwnedBorrow;
+            use poulpy_core::layouts::{Base2K, Degree, Dnum, GLWEToLWEKey, GLWEToLWEKeyLayout, GLWEToLWEKeyPreparedFactory, LWESwitchingKey, LWESwitchingKeyLayout, LWESwitchingKeyPreparedFactory, LWEToGLWEKey, LWEToGLWEKeyLayout, LWEToGLWEKeyPreparedFactory, Rank, TorusPrecision};
+            use poulpy_core::{EncryptionLayout, GLWEFromLWE, GLWEToLWESwitchingKeyEncryptSk, LWEFromGLWE, LWEKeySwitch, LWESwitchingKeyEncrypt, LWEToGLWESwitchingKeyEncryptSk};
+            let kb = c.kb as usize;
+            let ni = c.noise_infos();
+            let (nd, bb, kk, dn) = (Degree(n as u32), Base2K(kb as u32), TorusPrecision(c.key_k() as u32), Dnum(c.dnum as u32));
+            let n1 = (c.n_lwe as usize).clamp(1, n);
+            let n2 = (c.n_lwe2 as usize).clamp(1, n);
+            let mut xe = Source::new(seed32(c.seed, 0xE1));
+            let mut xa = Source::new(seed32(c.seed, 0xA1));
+            let lraw = |l: &poulpy_core::layouts::LWE<Vec<u8>>| -> Vec<i64> { l.data().raw().to_vec() };
+            match op {
+                30 => {
+                    let sk1 = lwe_secret(n1, c.dist, c.seed, 1);
+                    let skg = secret(n, ro, c.dist, c.seed, 2);
+                    let mut skp = m.glwe_secret_prepared_alloc(Rank(ro as u32));
+                    m.glwe_secret_prepare(&mut skp, &skg);
+                    let lay = LWEToGLWEKeyLayout { n: nd, base2k: bb, k: kk, dnum: dn, rank_out: Rank(ro as u32) };
+                    let enc = EncryptionLayout::new(lay, ni).unwrap();
+                    let mut key = LWEToGLWEKey::alloc_from_infos(&lay);
+                    m.lwe_to_glwe_key_encrypt_sk(&mut key, &sk1, &skp, &enc, &mut xe, &mut xa, big.borrow());
+                    let mut prep = m.lwe_to_glwe_key_prepared_alloc_from_infos(&key);
+                    m.lwe_to_glwe_key_prepare(&mut prep, &key, big.borrow());
+                    let a = arbitrary_lwe(n1, al, cls, c.seed ^ 0xA);
+                    let proto = glwe(n, rl, ro);
+                    let bytes = m.glwe_from_lwe_tmp_bytes(&proto, &a, &prep);
+                    three_runs::<B, _>(c, opn, bytes, |s, fill| {
+                        let mut r = filled(n, rl, ro, VClass::Uniform, fill);
+                        m.glwe_from_lwe(&mut r, &a, &prep, s);
+                        raw(&r)
+                    })
+                }
+                31 => {
+                    let sk2 = lwe_secret(n2, c.dist, c.seed, 1);
+                    let skg = secret(n, ri, c.dist, c.seed, 2);
+                    let lay = GLWEToLWEKeyLayout { n: nd, base2k: bb, k: kk, rank_in: Rank(ri as u32), dnum: dn };
+                    let enc = EncryptionLayout::new(lay, ni).unwrap();
+                    let mut key = GLWEToLWEKey::alloc_from_infos(&lay);
+                    m.glwe_to_lwe_key_encrypt_sk(&mut key, &sk2, &skg, &enc, &mut xe, &mut xa, big.borrow());
+                    let mut prep = m.glwe_to_lwe_key_prepared_alloc_from_infos(&key);
+                    m.glwe_to_lwe_key_prepare(&mut prep, &key, big.borrow());
+                    let a = filled(n, al, ri, cls, c.seed ^ 0xA);
+                    let idx = c.idx as usize % n;
+                    let proto = arbitrary_lwe(n2, rl, VClass::Uniform, 1);
+                    let bytes = m.lwe_from_glwe_tmp_bytes(&proto, &a, &prep);
+                    three_runs::<B, _>(c, opn, bytes, |s, fill| {
+                        let mut r = arbitrary_lwe(n2, rl, VClass::Uniform, fill);
+                        m.lwe_from_glwe(&mut r, &a, idx, &prep, s);
+                        lraw(&r)
+                    })
+                }
+                _ => {
+                    let (sk1, sk2) = (lwe_secret(n1, c.dist, c.seed, 1), lwe_secret(n2, c.dist, c.seed, 2));
+                    let lay = LWESwitchingKeyLayout { n: nd, base2k: bb, k: kk, dnum: dn };
+                    let enc = EncryptionLayout::new(lay, ni).unwrap();
+                    let mut key = LWESwitchingKey::alloc_from_infos(&lay);
+                    m.lwe_switching_key_encrypt_sk(&mut key, &sk1, &sk2, &enc, &mut xe, &mut xa, big.borrow());
+                    let mut prep = m.lwe_switching_key_prepared_alloc_from_infos(&key);
+                    m.lwe_switching_key_prepare(&mut prep, &key, big.borrow());
+                    let a = arbitrary_lwe(n1, al, cls, c.seed ^ 0xA);
+                    let proto = arbitrary_lwe(n2, rl, VClass::Uniform, 1);
+                    let bytes = m.lwe_keyswitch_tmp_bytes(&proto, &a, &prep);
+                    three_runs::<B, _>(c, opn, bytes, |s, fill| {
+                        let mut r = arbitrary_lwe(n2, rl, VClass::Uniform, fill);
+                        m.lwe_keyswitch(&mut r, &a, &prep, s);
+                        lraw(&r)
+                    })
+                }
+            }
+        }
         _ => {
             let r_ = ro;
             let a = filled(n, al, r_, cls, c.seed ^ 0xA);
@@ -611,7 +688,7 @@ pub fn run_all_c10(ctx: &Ctx) {
     ctx.run_sub("core_cross_backend", t.pick(4_000, 80_000), 64, crate::c03::strategy, test_xb);
 }
 
-pub const RULE_C10: &str = "scheme level: cases = (one of 30 operations of poulpy-core and of the CMux family, generated gadget shapes / ranks / radices / sizes as in C03-C05, parameters inside the FFT64 exactness domain); keys are encrypted, prepared and the operation executed from identical seeds on FFT64Ref, FFT64Avx, NTT120Ref and NTT120Avx; the result ciphertexts must be identical byte for byte. non-trivial = every case that runs on all four backends.";
+pub const RULE_C10: &str = "scheme level: cases = (one of 33 operations of poulpy-core and of the CMux family, generated gadget shapes / ranks / radices / sizes as in C03-C05, parameters inside the FFT64 exactness domain); keys are encrypted, prepared and the operation executed from identical seeds on FFT64Ref, FFT64Avx, NTT120Ref and NTT120Avx; the result ciphertexts must be identical byte for byte. non-trivial = every case that runs on all four backends.";
 
 pub fn run_all(ctx: &Ctx) {
     let t = ctx.tier;
@@ -624,7 +701,7 @@ pub fn run_all_c11(ctx: &Ctx) {
     ctx.run_sub("core_two_fills", t.pick(6_000, 120_000), 64, crate::c03::strategy, test);
 }
 
-pub const RULE_C11: &str = "core level: cases = (backend, one of 30 operations of poulpy-core and of the CMux family, generated gadget shapes / ranks / radices / sizes as in C03-C05); each call runs twice with ample scratch, from two different garbage fills of the scratch window and of every byte of the destination; the declared outputs must be identical and the guard regions intact. non-trivial = every executed case.";
+pub const RULE_C11: &str = "core level: cases = (backend, one of 33 operations of poulpy-core and of the CMux family, generated gadget shapes / ranks / radices / sizes as in C03-C05); each call runs twice with ample scratch, from two different garbage fills of the scratch window and of every byte of the destination; the declared outputs must be identical and the guard regions intact. non-trivial = every executed case.";
 
 pub fn replay(ctx: &Ctx, sub: &str, case: &serde_json::Value) -> i32 {
     if ctx.property == "C11" {
